@@ -36,4 +36,5 @@ func And(a, b bool) bool                { intrinsic(); return false }
 func Or(a, b bool) bool                 { intrinsic(); return false }
 func Implies(a, b bool) bool            { intrinsic(); return false }
 func DrbgStream(draws []uint64)             { intrinsic() }
+func ScalarBytes(label string) []byte        { intrinsic(); return nil }
 func RegisterHarness(name string, f func()) {}
